@@ -13,6 +13,7 @@ Program nodes (tuples):
 info is a dict: file, line, func (qualified name), src, depth, plus rule specific keys.
 """
 from . import astx
+import re
 from . import terms as T
 
 PURE_FREE = {
@@ -1074,6 +1075,35 @@ class Builder:
     def pick(self, cands, call, fr):
         if len(cands) == 1:
             return cands[0]
+        # explicit template arguments select among overloads whose first template parameter differs in kind
+        # (emplace<T>(...) / emplace<I>(...)): a value-like first argument names the non-type overload
+        ta = (call.get("f") or {}).get("targs")
+        if ta and len(cands) > 1:
+            depth, first = 0, ""
+            for ch in ta:
+                if ch == "<":
+                    depth += 1
+                elif ch == ">":
+                    depth -= 1
+                elif ch == "," and depth == 0:
+                    break
+                first += ch
+            first = first.strip()
+            kind = None
+            if re.search(r"_v\s*<|::value\b|^\d+$|^sizeof\b", first):
+                kind = "nttp"
+            elif re.search(r"_t\s*<|^typename\b", first):
+                kind = "type"
+            else:
+                for tp in (fr.func.get("tparams") or []):
+                    if tp.get("n") == first:
+                        kind = tp.get("k")
+            if kind:
+                keep = [c for c in cands if (c.get("tparams") or [{}])[0].get("k") == kind]
+                if keep:
+                    cands = keep
+                    if len(cands) == 1:
+                        return cands[0]
         nargs = len(call["a"])
         asorts = [term_sort(self.term(a, fr)) for a in call["a"]]
 
